@@ -60,6 +60,23 @@ def scenarios(seed, tier):
             yield 'dst%d' % i, {'stream': 'textbook', 'case': s}
     for x in _split_cases(seed, 25 if tier == 'quick' else 250):
         yield x
+    # durations of a linked asset (time_back / time_forward / time already running) follow the main time unit like all others
+    import math
+    for i in range(max(6, n // 16)):
+        r2 = random.Random(rnd.getrandbits(48))
+        T = r2.randint(8, 14)
+        yield 'linked%d' % i, {'stream': 'linked', 'T': T, 'p': [20 + 15 * math.sin(t / 3.0) + gen.q8(r2, 0, 5) for t in range(T)],
+                               'a1': [2.0, 6.0, gen.q8(r2, 14, 22)], 'a2': [1.0, 3.0, gen.q8(r2, 18, 26)], 'tb': r2.choice([0.25, 0.5, 0.75]),
+                               'tf': r2.choice([0.0, 0.0, 0.25]), 'tar': r2.choice([0.0, 0.25, 0.5]), 'mrt': r2.choice([0.0, 0.5])}
+    for i in range(max(6, n // 16)):
+        r2 = random.Random(rnd.getrandbits(48))
+        T = r2.randint(12, 18)
+        t0 = r2.randint(4, T - 7)
+        # power is worth running only during a short spike (so the plant starts and shuts down inside the horizon), heat is a
+        # profitable by-product (so the heat bounds of the profiles bind)
+        yield 'chpprof%d' % i, {'stream': 'chp-profiles', 'T': T, 'p': [(200.0 if t0 <= t < t0 + 3 else 0.0) + gen.q8(r2, 0, 2) for t in range(T)],
+                                'ph': [10 + gen.q8(r2, 0, 2) for t in range(T)], 'sl': [1.0, 2.0], 'su': [1.5, 2.5], 'ql': [2.0, 1.0], 'qu': [2.5, 1.5],
+                                'ramp_freq': r2.choice(['30min', '15min', 'h'])}
     # an asset on a coarser frequency over fine steps of unequal length: the volume of each fine step is rate x ITS length
     from ..comp import periodic as PE
     for i in range(n // 8):
@@ -79,7 +96,92 @@ def _split_cases(seed, n):
                 return
 
 
+def run_linked(c):
+    """two plants linked by a LinkedAsset (asset 1 may dispatch only after asset 2 has been on for time_back) on a 15-minute grid,
+    once with main time unit 'h', once with 'min' (rates divided by 60, durations multiplied by 60): same optimal value"""
+    import datetime as dt
+    import numpy as np
+    import eaopack as eao
+    from eaopack.portfolio import LinkedAsset, Portfolio
+    from .. import impl
+    r = {'evaluated': 2, 'nontrivial': False, 'features': ['stream:linked-asset-unit-change'], 'disagreements': [], 'violations': []}
+    vals = {}
+    for unit, k in (('h', 1.0), ('min', 60.0)):
+        n1 = eao.Node('n1')
+        tg = eao.Timegrid(dt.datetime(2021, 1, 1), dt.datetime(2021, 1, 1) + dt.timedelta(minutes=15 * c['T']), freq='15min', main_time_unit=unit)
+        prices = {'p': np.asarray(c['p'], dtype=float)}
+        a1 = eao.assets.Plant(name='a1', nodes=[n1], min_cap=c['a1'][0] / k, max_cap=c['a1'][1] / k, extra_costs=c['a1'][2], start_costs=1.)
+        a2 = eao.assets.Plant(name='a2', nodes=[n1], min_cap=c['a2'][0] / k, max_cap=c['a2'][1] / k, extra_costs=c['a2'][2], start_costs=2.,
+                              time_already_running=c['tar'] * k, min_runtime=c['mrt'] * k)
+        try:
+            with impl.Quiet():
+                la = LinkedAsset(portfolio=Portfolio([a1, a2]), nodes=[n1], name='la', asset1_variable=('a1', 'disp', n1),
+                                 asset2_variable=('a2', 'bool_on', None), time_back=c['tb'] * k, time_forward=c['tf'] * k)
+                m = eao.assets.SimpleContract(name='m', nodes=n1, price='p', min_cap=-20. / k, max_cap=20. / k)
+                op = Portfolio([la, m]).setup_optim_problem(prices, tg)
+            res = impl.solve(op, solver='SCIP')
+        except Exception as e:
+            r['features'].append('linked-error:%s:%s' % (unit, type(e).__name__))
+            return r
+        vals[unit] = res if isinstance(res, str) else float(res.value)
+    if isinstance(vals['h'], str) or isinstance(vals['min'], str):
+        if type(vals['h']) is not type(vals['min']):
+            r['violations'].append({'oracle': 'unit_change', 'detail': 'linked plants: main time unit h gives %s, min gives %s' % (vals['h'], vals['min']), 'facts': {'what': 'linked_asset'}})
+        return r
+    r['nontrivial'] = abs(vals['h']) > 1e-9
+    if abs(vals['h'] - vals['min']) > 1e-6 * max(1.0, abs(vals['h'])):
+        r['violations'].append({'oracle': 'unit_change', 'detail': 'linked plants (time_back %g h, asset 2 already running %g h): optimal value %.9g with main time unit h, %.9g with min (rates / 60, durations x 60)' % (
+            c['tb'], c['tar'], vals['h'], vals['min']), 'facts': {'what': 'linked_asset'}})
+    return r
+
+
+def run_chp_profiles(c):
+    """a CHP with start / shutdown ramp profiles (power and heat) on a 15-minute grid, main time unit 'h' vs 'min' (all rates,
+    profile bounds included, divided by 60): same optimal value"""
+    import datetime as dt
+    import numpy as np
+    import eaopack as eao
+    from eaopack.portfolio import Portfolio
+    from .. import impl
+    r = {'evaluated': 2, 'nontrivial': False, 'features': ['stream:chp-profiles-unit-change'], 'disagreements': [], 'violations': []}
+    vals = {}
+    for unit, k in (('h', 1.0), ('min', 60.0)):
+        n1, nh = eao.Node('n1'), eao.Node('nh')
+        tg = eao.Timegrid(dt.datetime(2021, 1, 1), dt.datetime(2021, 1, 1) + dt.timedelta(minutes=15 * c['T']), freq='15min', main_time_unit=unit)
+        prices = {'p': np.asarray(c['p'], dtype=float), 'ph': np.asarray(c['ph'], dtype=float)}
+        sc = lambda xs: [x / k for x in xs]
+        kw = dict(start_ramp_lower_bounds=sc(c['sl']), start_ramp_upper_bounds=sc(c['su']), shutdown_ramp_lower_bounds=sc(c['ql']), shutdown_ramp_upper_bounds=sc(c['qu']),
+                  ramp_freq=c['ramp_freq'],
+                  start_ramp_lower_bounds_heat=sc([x / 2 for x in c['sl']]), start_ramp_upper_bounds_heat=sc([x / 2 + 0.25 for x in c['su']]),
+                  shutdown_ramp_lower_bounds_heat=sc([x / 2 for x in c['ql']]), shutdown_ramp_upper_bounds_heat=sc([x / 2 + 0.25 for x in c['qu']]))
+        try:
+            with impl.Quiet():
+                chp = eao.assets.CHPAsset(name='chp', nodes=[n1, nh], min_cap=3. / k, max_cap=8. / k, extra_costs=20., start_costs=1.,
+                                          conversion_factor_power_heat=0.5, max_share_heat=1., **kw)
+                m = eao.assets.SimpleContract(name='m', nodes=n1, price='p', min_cap=-20. / k, max_cap=20. / k)
+                mh = eao.assets.SimpleContract(name='mh', nodes=nh, price='ph', min_cap=-20. / k, max_cap=20. / k)
+                op = Portfolio([chp, m, mh]).setup_optim_problem(prices, tg)
+            res = impl.solve(op, solver='SCIP')
+        except Exception as e:
+            r['features'].append('chp-profile-error:%s:%s' % (unit, type(e).__name__))
+            return r
+        vals[unit] = res if isinstance(res, str) else float(res.value)
+    if isinstance(vals['h'], str) or isinstance(vals['min'], str):
+        if type(vals['h']) is not type(vals['min']):
+            r['violations'].append({'oracle': 'unit_change', 'detail': 'CHP with ramp profiles: main time unit h gives %s, min gives %s' % (vals['h'], vals['min']), 'facts': {'what': 'chp_profiles'}})
+        return r
+    r['nontrivial'] = abs(vals['h']) > 1e-9
+    if abs(vals['h'] - vals['min']) > 1e-6 * max(1.0, abs(vals['h'])):
+        r['violations'].append({'oracle': 'unit_change', 'detail': 'CHP with start/shutdown ramp profiles (power and heat, ramp_freq %s): optimal value %.9g with main time unit h, %.9g with min (all rates / 60)' % (
+            c['ramp_freq'], vals['h'], vals['min']), 'facts': {'what': 'chp_profiles'}})
+    return r
+
+
 def run_case(c, drv):
+    if c['stream'] == 'chp-profiles':
+        return run_chp_profiles(c)
+    if c['stream'] == 'linked':
+        return run_linked(c)
     if c['stream'] == 'split':
         from . import c14
         r = c14.run_case(c['case'], drv)
